@@ -266,7 +266,7 @@ def compare_builtin(chk: Check, pick):
             return
     a, b = results
     chk.traces += 1
-    if abs(a.cost - b.cost) > 1e-9 * max(1e-300, abs(a.cost)):
+    if not (abs(a.cost - b.cost) <= 1e-9 * max(1e-300, abs(a.cost))):      # NaN-safe
         chk.violation(key + " objective", f"{desc}: objective changes under permutation of the declaration order: cost {a.cost!r} vs {b.cost!r}", rep)
     for dslabel in a.data:
       da, db = a.data[dslabel], b.data[dslabel]
